@@ -3,6 +3,7 @@ import itertools, json
 import fmtspec
 
 ID = "C19"
+CORPUS_FIRST = True
 RULE = ("cli.run fmt (the working tree's cmd/fmt.c, in a forked child) on generated option programs: all programs of "
         "length <=2 (quick) / <=3 (thorough) over all 33 options with arguments from a small alphabet after 0..2 pushes, "
         "plus random programs of length 4..12 biased to keep the stack non-empty; exit status, standard output and "
